@@ -2,6 +2,7 @@ SPECIFICATION Spec
 CONSTANTS
   MaxLen = 2
   Syms = {"id", "mut", "ref", "at", "raw", "fnname", "fnname_", "rawfn", "gnext", "gprev", "ugnext", "ugprev", "wild", "tup2", "tup0", "ts1", "ts1w", "st1", "sts", "refp", "tsu", "nest2", "liftfn", "liftfn_", "tsmut", "stref", "tsat", "tsraw"}
+  Extra3 = {"wild", "tup2", "gnext", "gprev", "ugnext", "ugprev"}
   DumpCases = TRUE
 INVARIANTS TypeOK StepwiseIsFinal TakenExact GenFresh Refines OneNamePerParam
 CHECK_DEADLOCK FALSE
